@@ -145,3 +145,6 @@ impl<'w> DespawnEvent<'w>
 }
 
 //-------------------------------------------------------------------------------------------------------------------
+
+#[cfg(bevy_cobweb_verif)]
+impl DespawnAccessTracker { pub(crate) fn verif_state(&self) -> (bool, usize, bool) { (self.currently_reacting, self.prepared.len(), self.reactor_handle.is_some()) } }
